@@ -40,7 +40,13 @@ type Directory struct {
 func FindDirectory(r io.ReaderAt, size int64) (int64, error) {
 	pos := size - directoryEndLen - directory64LocLen
 	var endb [directoryEndLen + directory64LocLen]byte
-	if _, err := r.ReadAt(endb[:], pos); err != nil {
+	buf := endb[:]
+	if pos < 0 && size >= directoryEndLen {
+		// too short to hold a ZIP64 locator, e.g. an empty archive
+		buf = endb[-pos:]
+		pos = 0
+	}
+	if _, err := r.ReadAt(buf, pos); err != nil {
 		return 0, err
 	}
 	re := bytes.NewReader(endb[:])
